@@ -18,6 +18,9 @@ use sudachi::dic::storage::{Storage, SudachiDicData};
 const KANA: [&str; 10] = ["あ", "い", "う", "か", "き", "く", "さ", "し", "す", "た"];
 const POS: [&str; 3] = ["名詞,普通名詞,一般,*,*,*", "助詞,格助詞,*,*,*,*", "動詞,一般,*,*,*,*"];
 pub const KNOWN_SPLIT: &str = "c06_split_surface_mismatch";
+/// user dictionary row with a dictionary-form reference: the builder validates `<n>` against the system dictionary, the reader
+/// resolves it inside the user lexicon (defect recorded by the C05/C12 group; only damaged bytes produce it here)
+pub const KNOWN_USER_DICFORM: &str = "c06_user_dic_form_reference";
 
 #[derive(Clone, Debug)]
 enum Tok {
@@ -798,7 +801,14 @@ fn run_raw(sink: &mut Sink, env: &Env, matrix: Option<Vec<u8>>, lexicon: Vec<u8>
         let lr = load_and_analyse(env, matrix.is_none(), &b.bytes, &[probe, "あいxか1。".to_string()]);
         if !lr.ok {
             // damaged split references can produce the known finding too: splits that still resolve but no longer spell the headword
-            let cls = if lr.msg.contains("analysis") && text.lines().any(|l| l.split(',').nth(15).map(|c| c != "*" && !c.is_empty()).unwrap_or(false)) { KNOWN_SPLIT } else { "" };
+            let col = |l: &str, k: usize| l.split(',').nth(k).map(|c| c != "*" && !c.is_empty()).unwrap_or(false);
+            let cls = if lr.msg.contains("analysis") && matrix.is_none() && text.lines().any(|l| col(l, 13)) {
+                KNOWN_USER_DICFORM
+            } else if lr.msg.contains("analysis") && text.lines().any(|l| col(l, 15) || col(l, 16)) {
+                KNOWN_SPLIT
+            } else {
+                ""
+            };
             sink.fail(id, &format!("compilation of damaged input reported success, then {}", lr.msg), cls);
         }
     }
@@ -917,6 +927,11 @@ pub fn run(args: &Args) {
         fix_concat_flags(&mut recs, false);
         emit(&mut sink, &env, &mut rng, &Case { base: Base::System(good_matrix(3, 3, &mut Rng::new(5))), recs }, "directed_split_surface_mismatch");
     }
+    // user-dictionary dictionary-form reference (known finding, reader side): replayed on the implementation every run
+    run_raw(&mut sink, &env, None, "ああ,0,0,100,ああ,名詞,普通名詞,一般,*,*,*,ヨミ,ああ,2,A,*,*,*\n".as_bytes().to_vec(), "directed_user_dic_form_reference");
+    // NUL byte in a surface (was a panic of the trie builder)
+    run_raw(&mut sink, &env, Some(sys_matrix_text().into_bytes()), "\u{0}ああ,0,0,100,ああ,名詞,普通名詞,一般,*,*,*,ヨミ,ああ,*,A,*,*,*\n".as_bytes().to_vec(), "directed_nul_in_surface");
+    run_raw(&mut sink, &env, Some(sys_matrix_text().into_bytes()), Vec::new(), "directed_empty_lexicon");
     // ---- structured stream
     let n = args.n(700, 12000);
     for it in 0..n {
